@@ -50,6 +50,8 @@ class Ctx:
         self.funcs = {}
         self.vars = {}
         self.nums = {}
+        self.side = []
+        self.side_vars = []
 
     # ------------------------------------------------------------ sorts
     def num_sort(self, name):
@@ -69,6 +71,30 @@ class Ctx:
         if name not in self.vars:
             self.vars[name] = z3.String("s_" + name)
         return self.vars[name]
+
+    # ------------------------------------------------------------ str::trim
+    WS = [9, 10, 11, 12, 13, 32, 0x85, 0xA0, 0x1680] + list(range(0x2000, 0x200B)) + [0x2028, 0x2029, 0x202F, 0x205F, 0x3000]
+
+    def trim(self, s):
+        """Rust's str::trim: s = pre . t . post, pre/post white space only, t neither starts nor ends with one.
+        t is functionally determined by s; the defining constraints are collected in self.side."""
+        key = ("trim", str(s))
+        if key in self.funcs:
+            return self.funcs[key]
+        n = len(self.side_vars)
+        t = z3.String("trim_t_%d" % n)
+        pre = z3.String("trim_pre_%d" % n)
+        post = z3.String("trim_post_%d" % n)
+        self.side_vars.append(t)
+        ws = z3.Union(*[z3.Re(z3.StringVal(chr(c))) for c in self.WS])
+        anyc = z3.Star(z3.AllChar(z3.ReSort(z3.StringSort())))
+        self.side.append(s == z3.Concat(pre, t, post))
+        self.side.append(z3.InRe(pre, z3.Star(ws)))
+        self.side.append(z3.InRe(post, z3.Star(ws)))
+        self.side.append(z3.Not(z3.InRe(t, z3.Concat(ws, anyc))))
+        self.side.append(z3.Not(z3.InRe(t, z3.Concat(anyc, ws))))
+        self.funcs[key] = t
+        return t
 
     # ------------------------------------------------------------ encoders
     def loc(self, l):
@@ -136,6 +162,8 @@ class Ctx:
             return z3.Or([self.cond(x) for x in c["a"]])
         if k == "not":
             return z3.Not(self.cond(c["a"]))
+        if k == "streq":
+            return self.term(c["x"]) == z3.StringVal(c["v"])
         if k == "cateq":
             if c["v"] not in self.cat_const:
                 raise Inconclusive("unknown category %r" % c["v"])
@@ -171,6 +199,8 @@ class Ctx:
             return z3.Concat(*parts)
         if k == "ite":
             return z3.If(self.cond(t["c"]), self.term(t["a"]), self.term(t["b"]))
+        if k == "app" and t["f"] == "trim":
+            return self.trim(self.term(t["a"][0]["v"]))
         if k == "app":
             args = [self.arg(a) for a in t["a"]]
             key = ("app", t["f"], tuple(str(a.sort()) for a in args))
@@ -266,6 +296,8 @@ def differ(ctx, a, b, timeout_ms=20000, want_smt2=False, extra=None):
     tb = ctx.term(b)
     if extra is not None:
         s.add(extra)
+    for c in ctx.side:
+        s.add(c)
     s.add(ta != tb)
     t0 = time.time()
     r = s.check()
